@@ -839,3 +839,89 @@ def check_c11(pid, tier, build, props):
 
 
 REGISTRY["C11"] = check_c11
+
+
+# --------------------------------------------------------------------------- C12
+def check_c12(pid, tier, build, props):
+    import json
+    import os
+    import subprocess
+    from concurrent.futures import ThreadPoolExecutor
+
+    t = common.Timer()
+    problems = base_problems(build, props, pid)
+    seeds = [0, 1, 7, 12345] if tier == "quick" else list(range(0, 32))
+
+    def run(hs):
+        env = dict(os.environ, PYTHONHASHSEED=str(hs), PYTHONPATH=os.path.join(common.VERIF, "harness"),
+                   VERIF_REPO=common.REPO)
+        res = subprocess.run([common.PY, "-m", "vh.c12_seeds", tier, str(common.seed())],
+                             capture_output=True, text=True, env=env)
+        if res.returncode != 0:
+            return hs, None, res.stderr[-300:]
+        return hs, json.loads(res.stdout), None
+
+    with ThreadPoolExecutor(min(16, len(seeds))) as ex:
+        results = list(ex.map(run, seeds))
+    violations = []
+    base = None
+    n_inputs = 0
+    kinds = {}
+    for hs, data, err in results:
+        if data is None:
+            problems.append("run under PYTHONHASHSEED=%s failed: %s" % (hs, err))
+            continue
+        if base is None:
+            base = (hs, data)
+            n_inputs = len(data)
+            for k, _, _ in data:
+                kinds[k] = kinds.get(k, 0) + 1
+            continue
+        if len(data) != len(base[1]):
+            problems.append("different number of inputs under seeds %s and %s" % (base[0], hs))
+            continue
+        for (k1, inp1, d1), (k2, inp2, d2) in zip(base[1], data):
+            if inp1 != inp2:
+                problems.append("harness generated different inputs under different hash seeds")
+                break
+            if d1 != d2 and len(violations) < 5:
+                violations.append({"kind": k1, "input": inp1,
+                                   "witness": {"reason": "result differs between hash seeds",
+                                               "PYTHONHASHSEED": [base[0], hs], "digests": [d1, d2]}})
+    nth = len(props["theorems"])
+    site_rows = []
+    try:
+        from . import tr_sets
+
+        site_rows = tr_sets.scan()
+    except Exception as e:
+        problems.append("scanner failed: %r" % (e,))
+    coverage = {
+        "obligations": nth + 1,
+        "discharged": (nth if props["ok"] else 0) + (1 if base and not violations and not problems else 0),
+        "checker_cmd": "coqc Props/C12.v (Gen/SetSites.v regenerated); python -m vh.c12_seeds under %d hash seeds" % len(seeds),
+        "trusted_base": TRUSTED + ["harness/vh/tr_sets.py: the syntactic inference of which expressions are sets",
+                                   "coq/Model/SetOrder.v 'reviewed': the hand-assigned class of every site"],
+        "theorems": props["theorems"],
+        "evaluations": n_inputs * len([r for r in results if r[1] is not None]),
+        "distinct_nontrivial": n_inputs,
+        "rule": "closed CFGs (all with 3 blocks, sampled 4-block and random up to 30 blocks), generated source "
+                "programs (front end, restructuring, regenerated source text) and standard-library functions "
+                "(bytecode front end + restructuring); each run in a separate process per hash seed; compared by a "
+                "digest of a dump sensitive to names, nesting, dictionary order, tables; distinct = inputs",
+        "hash_seeds": seeds, "inputs_by_kind": kinds,
+        "set_iteration_sites": len(site_rows),
+        "samples": [{"site": list(s)} for s in site_rows[:3]] + ([{"input": base[1][5][1], "digest": base[1][5][2]}] if base else []),
+        "explanation": "Proved: the inventory of set-iteration sites (re-scanned on every run) is covered by the "
+                       "reviewed table; for the classes sorted-result, singleton, len-member, delete-keys, "
+                       "commutative the result is invariant under every permutation of the enumeration order "
+                       "(universal lemmas over the models). NOT proved and named as such: the sites of class "
+                       "'fixpoint' (dominator work-list and entries order, _imm_doms pruning, to_dict's queue, "
+                       "prune_unreachable) and CPython's string hashing itself - the runtime behaviour the model "
+                       "cannot exhibit; these rest on the cross-seed runs only.",
+    }
+    return {"coverage": coverage, "violations": violations, "problems": problems, "level": "proof",
+            "wall_s": t.s(), "broken_name": "Props/C12.v (C12_sites_covered) / cross-seed comparison"}
+
+
+REGISTRY["C12"] = check_c12
